@@ -1108,6 +1108,9 @@ static void disasm_range_msp430_both(
 
     while (count > 0)
     {
+      // An instruction that runs over the top of the address space.
+      if (start + 2 < start) { return; }
+
       start = start + 2;
       num = READ_RAM(start) | (READ_RAM(start + 1) << 8);
       printf("0x%04x: 0x%04x\n", start, num);
